@@ -167,6 +167,11 @@ func init() {
 			m.EAttr(m.EIdx(grids, m.ENum(0)), "1"), m.EIdx(m.EAttr(grids, "0"), m.ENum(1)), m.EAttr(m.EAttr(m.EName("an0"), "0"), "x"),
 			m.EAttr(m.EAttr(h("a", h("b", m.ENum(1))), "a"), "b"), h("a", h("b", h("c", m.ENum(1)))), m.EArr(h("a", h()), h()),
 		}
+		// attribute names that are also operator words
+		for _, w := range []string{"in", "is", "not", "and", "or", "matches"} {
+			hw := &m.E{K: "hash", KS: []*m.E{m.EStr(w)}, A: []*m.E{m.EStr("v-" + w)}}
+			forms = append(forms, m.EAttr(hw, w), m.EBin("~", m.EAttr(hw, w), m.EStr("!")), m.EBin("in", m.EAttr(hw, w), m.EArr(m.EStr("v-"+w))))
+		}
 		for _, hay := range []string{"abc", "", "a b"} {
 			for _, nd := range []string{"a", "bc", "x", "", "abc", " "} {
 				forms = append(forms, m.EBin("in", m.EStr(nd), m.EStr(hay)), m.EBin("not in", m.EStr(nd), m.EStr(hay)))
